@@ -157,6 +157,47 @@ def run(ctx):
                    % ([hex(a) for a in seq][:8] + (["... %d words" % len(seq)] if len(seq) > 8 else []), states[:8], c, want, idx,
                       other_writes[:2], problems[:2], bad[:2]),
                    "A4 with loop unrolling; trigger_clock_edge replaced by the scripted abstract edge")
+    # the same for every programmed control word standing in the middle of an instruction (the scenarios above use two sample
+    # words): whatever the word looks like, an assembly step runs on to the next fetch word and stops there
+    bad_words = []
+    nw = 0
+    asm_v = modes["Assembly"]
+    for w in nondone:
+        for label, seq in (("from-boundary", [D0, w, D0, N1]), ("from-the-word", [w, D0, N1])):
+            states = [RUN] * len(seq)
+            I = absint.Interp(p)
+            I.unroll = 12
+            problems = []
+
+            def edge_stub2(I_, st, depth, callee, args, body, ln, seq=seq, problems=problems):
+                r = args[0]
+                if not isinstance(r, Ref):
+                    problems.append("edge called on unknown receiver")
+                    return Agg(())
+                c = I_.load(st, r.alloc, r.path + cnt_path[1:])
+                if not isinstance(c, int):
+                    problems.append("edge counter not concrete")
+                    return Agg(())
+                k = min(c + 1, len(seq) - 1)
+                I_.store_to(st, r.alloc, r.path + cnt_path[1:], c + 1)
+                I_.store_to(st, r.alloc, r.path + idx_path[1:], seq[k])
+                return Agg(())
+            I.fn_overrides[step.EDGE] = edge_stub2
+            ov = step.machine_overrides(p, seq[0], None, None)
+            ov["state"] = En({RUN: ()})
+            ov["last_bus_read"] = 0
+            st, ma, r = step.run_method(p, I, KEYCLK, ov, ty=MACHINE, extra_ov={"step_mode": En({asm_v: ()})})
+            c = I.load(st, ma, cnt_path)
+            want = reference_edges([a in g.done for a in seq] + [True] * 8, [True] * (len(seq) + 8), limit=20)
+            bad = [e for e in I.events if e.kind in step.BAD_EVENTS and not e.in_log]
+            nw += 1
+            if r is BOT or c != want or problems or bad:
+                bad_words.append("word %#05x %s: %r edges, expected %d %s" % (w, label, c, want, (problems + [repr(b_)[:60] for b_ in bad])[:1]))
+    chk.ob("step-skeleton/Assembly/every-word", not bad_words,
+           "with any programmed non-fetch word as the word in the middle of the instruction, an assembly step runs exactly to "
+           "the next fetch word", kb.loc(), "; ".join(bad_words[:3]) or "%d (word, start) cases" % nw,
+           "A4 of trigger_key_clock with the scripted abstract edge, once per programmed control word")
+    chk.floor("assembly-step word cases", nw, 400)
     # step_mode writers
     ws = {w["body"] for w in mirutil.field_writers(p, MACHINE, "step_mode")}
     allowed = {MACHINE + "::set_step_mode"}
